@@ -80,6 +80,9 @@ pub fn c17_hooks() -> Hooks {
                 }))
             } else { None },
             geoip_file: if c.ops.len() % 2 == 0 { Some("generated.mmdb".to_string()) } else { None },
+            // cases that carry steps of the wall clock run with the default 300 s time-to-live of the DNS cache: entries seeded before
+            // a forward step are stale at the next frame (the path that queues them again)
+            dns_ttl_s: if c.ops.iter().any(|o| matches!(o, Op::Clock(_))) { 300 } else { 1 << 30 },
             geoip_mode: if c.ops.len() % 2 == 0 { [GeoIpMode::Short, GeoIpMode::Long, GeoIpMode::Location, GeoIpMode::Off][c.ops.len() / 2 % 4] } else { GeoIpMode::Off },
             ..Setup::default()
         }),
@@ -624,6 +627,11 @@ pub fn structured_cases() -> Vec<Case> {
     v.push(base(4, vec![
         f(120, 40), round_of_path(0, 1, 1, &path(&[1, 2, 3]), 0), Op::Clear { t: 0 }, outage(2, 3), outage(3, 3), f(120, 40),
         k("next_hop"), k("toggle_hop_details"), k("expand_hosts_max"), f(120, 40), round_of_path(0, 4, 1, &path(&[1, 5, 3]), 0), f(120, 40), f(80, 24),
+    ]));
+    // host names on display, then more time than the DNS time-to-live passes without a frame (chart shown), then the table again
+    v.push(base(1, vec![
+        f(120, 40), round_of_path(0, 1, 1, &path(&[1, 2, 3]), 0), k("address_mode_host"), f(120, 40), k("toggle_chart"), f(120, 40),
+        Op::Clock(3600), k("toggle_chart"), f(120, 40), f(120, 40), Op::Clock(100_000), f(80, 24), k("address_mode_both"), Op::Clock(301), f(120, 40),
     ]));
     // the display is frozen, then the wall clock is set back by an hour (and later forward again): frames keep being drawn
     v.push(base(1, vec![
